@@ -187,6 +187,39 @@ def c04(rnd, budget):
     except (TimeoutError, multiprocessing.TimeoutError):
         if time.time() - t0 > 2.5:
             return dict(violation=True, cases=cases, what="TimeoutError only after %.1fs" % (time.time() - t0), witness="timeout=0.3")
+    # ... also after some results have already been delivered, in every return mode (seeded change C04-unordered-timeout-control-job-not-renewed:
+    # in completion order the clock of a job that was already retrieved was watched, so a task that never completes never timed out)
+    import threading as _th
+    for ras in ("list", "generator", "generator_unordered"):
+        cases += 1
+        release = _th.Event()
+
+        def _quick(i):
+            time.sleep(0.1)
+            return i
+
+        def _stuck(i, release=release):
+            release.wait(6.0)
+            return i
+        wd = _th.Timer(3.0, release.set)
+        wd.daemon = True
+        wd.start()
+        t0 = time.time()
+        outcome = "returned"
+        try:
+            out = Parallel(n_jobs=2, backend="threading", return_as=ras, timeout=0.5, pre_dispatch=2)(
+                iter([delayed(_quick)(0), delayed(_quick)(1), delayed(_stuck)(2), delayed(_stuck)(3)]))
+            if ras != "list":
+                for _ in out:
+                    pass
+        except (TimeoutError, multiprocessing.TimeoutError):
+            outcome = "timeout"
+        finally:
+            release.set()
+            wd.cancel()
+        if outcome != "timeout" or time.time() - t0 > 2.5:
+            return dict(violation=True, cases=cases, what="two quick results, then tasks that never complete, timeout=0.5: %s after %.1fs" % (outcome, time.time() - t0),
+                        witness=dict(return_as=ras, timeout=0.5, pre_dispatch=2, n_jobs=2))
     # a call that fails before anything runs (the argument is not iterable; n_jobs resolves to nothing usable) leaves the object usable
     for managed in (False, True):
         for bad_input, exc in ((5, TypeError), (None, TypeError)):
